@@ -5,6 +5,7 @@ package lockup
 
 import (
 	"fmt"
+	"runtime/debug"
 	"sort"
 	"strings"
 	"time"
@@ -496,7 +497,19 @@ func (w *world) build(st simcore.Step) (sdk.Msg, func(simchain.Result), bool) {
 }
 
 // oracle compares module state and every query with the reference.
-func (w *world) oracle(op string) bool {
+func (w *world) oracle(op string) (ok bool) {
+	// a panic raised by the module's own code while the oracle queries it (a dangling index entry, for instance)
+	// is a violation of "every query returns exactly the matching locks", not a harness failure
+	defer func() {
+		if x := recover(); x != nil {
+			stk := string(debug.Stack())
+			if !strings.Contains(stk, "/x/lockup/") && !strings.Contains(stk, "/osmoutils/") {
+				panic(x)
+			}
+			w.run.Fail("C06", "query-panics", op, "a lockup query panicked: %v", x)
+			ok = false
+		}
+	}()
 	run, n := w.run, w.n
 	ctx := n.QueryCtx()
 	k := n.App.LockupKeeper
